@@ -1,178 +1,566 @@
 /-
-C02 — interleavings.  Any number of request goroutines run `Allow` and then `Pass`/`Fail` concurrently; every
-shared access of the Go code is one atomic step here:
+C02 — interleavings.  Any number of request goroutines run `Allow` and then `Pass`/`Fail` concurrently while the
+clock advances; every access of the Go code to shared memory is one atomic step of its own here (atomics,
+spin-locked sections and RWMutex-protected window operations at their documented meaning):
 
-  pc 0 → 1   highThru reads `flying` (atomic.LoadInt64) into the goroutine's register `rf`
-             (gate verdict, average and limit are read at their own instants and are arbitrary here)
-  pc 1 → 2   shouldDrop = true: allowed only if the value read exceeds a limit ≥ 1/10 (= maxFlight·factor ≥ 0.1);
-             Allow returns ErrServiceOverloaded (terminal)
-  pc 1 → 3   admitted: atomic.AddInt64(&flying, +1); the request is in flight
-  pc 3 → 4   Pass/Fail: atomic.AddInt64(&flying, −1), the result kept in the goroutine's local `flying`
-  pc 4 → 5   under avgFlyingLock: avgFlying = avgFlying·β + local·(1−β)
+  Allow → shouldDrop
+    start    systemOverloaded: the checker's verdict `over` (an input)            over → soNow, else shDr
+    soNow    timex.Now()                                                          → soSet
+    soSet    overloadTime.Set(that time)                                          → htAvg   (gate open)
+    shDr     stillHot: droppedRecently.True()                                     false → enter, else shOt
+    shOt     overloadTime.Load()                                                  0 → enter, else shNow
+    shNow    timex.Since(overloadTime) < coolOffDuration                          yes → htAvg, else shClear
+    shClear  droppedRecently.Set(false)                                           → enter
+    htAvg    highThru: avgFlying read under its lock                              → htMp
+    htMp     maxPass(): passCounter.Reduce (one read-locked section)              → htRt
+    htRt     minRt(): rtCounter.Reduce (one read-locked section)                  → htCpu
+    htCpu    overloadFactor(): stat.CpuUsage() (an input); avg > limit ?          no → enter, yes → htFly
+    htFly    atomic.LoadInt64(&flying); flying > limit ?                          no → enter, yes → logHot
+    logHot   the log line re-evaluates stillHot(), which may clear droppedRecently (over-approximated: it may
+             or may not clear, the environment chooses)                           → setDr
+    setDr    droppedRecently.Set(true)                                            → shed  (ErrServiceOverloaded)
+    enter    atomic.AddInt64(&flying, +1)                                         → stamp
+    stamp    promise.start = timex.Now()                                          → inflight
+  Pass / Fail
+    inflight Pass: timex.Since(start) → pAdd;  Fail: atomic.AddInt64(&flying, −1) → fAvg
+    pAdd     atomic.AddInt64(&flying, −1), result kept in the local `flying`      → pAvg
+    pAvg     under avgFlyingLock: avgFlying = avgFlying·β + local·(1−β)           → pRt
+    pRt      rtCounter.Add(latency)                                               → pCnt
+    pCnt     passCounter.Add(1)                                                   → done
+    fAvg     as pAvg                                                              → done
 
-`Reach` closes the initial state (n goroutines at pc 0, n arbitrary) under any goroutine taking its next step,
-i.e. under every schedule.
+Registers (`r…`) are what the goroutine holds in locals; the decisions of `step` read only registers.
+Ghosts (`g…`) are copies of the whole shared state, of the number of goroutines in flight and of the global step
+number, taken at the very step at which the corresponding register is loaded; `step` never reads them.
+`Reach` closes the initial state under any goroutine taking its next step and under clock ticks, i.e. under every
+schedule.  The invariant ties every register to its ghost, every ghost to a reachable state, and the ghosts of
+one goroutine to program order.
 -/
-import GoZero.C02.Model
+import GoZero.C02.Proofs
 namespace GoZero.C02.Conc
 
-structure Th where
-  pc  : Nat
-  rf  : Int := 0
-  reg : Int := 0
+inductive PC where
+  | start | soNow | soSet | shDr | shOt | shNow | shClear
+  | htAvg | htMp | htRt | htCpu | htFly | logHot | setDr | shed
+  | enter | stamp | inflight | pAdd | pAvg | pRt | pCnt | fAvg | done
   deriving DecidableEq, Repr
 
-structure Sys where
-  flying : Int
-  avg    : Rat
-  ths    : List Th
+/-- the goroutine holds an admitted, unresolved promise: between the +1 and the −1 on `flying`. -/
+def PC.inFlight : PC → Bool
+  | .stamp | .inflight | .pAdd => true
+  | _ => false
+
+/-- how far the goroutine is into `highThru` (0: not there; 6: decided to shed). -/
+def PC.stage : PC → Nat
+  | .htAvg => 1 | .htMp => 2 | .htRt => 3 | .htCpu => 4 | .htFly => 5
+  | .logHot | .setDr | .shed => 6
+  | _ => 0
+
+/-- the shedder's shared memory and the clock. -/
+structure Shared where
+  now          : Nat
+  flying       : Int
+  avg          : Rat
+  overloadTime : Nat
+  dropped      : Bool
+  passC        : RW
+  rtC          : RW
   deriving Repr
 
-def inFlight (s : Sys) : Nat := s.ths.countP (fun t => t.pc == 3)
+/-- ghost snapshot: the shared state, the number of goroutines in flight and the step number at one instant. -/
+structure Snap where
+  sh   : Shared
+  infl : Nat
+  seq  : Nat
+  deriving Repr
 
-/-- goroutine `i` takes its next step; `lim`/`drop` are the environment's choices for the decision step. -/
-def step (s : Sys) (i : Nat) (lim : Rat) (drop : Bool) : Option Sys :=
-  match s.ths[i]? with
-  | none => none
-  | some t =>
-    if t.pc = 0 then some { s with ths := s.ths.set i { t with pc := 1, rf := s.flying } }
-    else if t.pc = 1 then
-      if drop then
-        if 1 / 10 ≤ lim ∧ (t.rf : Rat) > lim then some { s with ths := s.ths.set i { t with pc := 2 } } else none
-      else some { s with flying := s.flying + 1, ths := s.ths.set i { t with pc := 3 } }
-    else if t.pc = 3 then
-      some { s with flying := s.flying - 1, ths := s.ths.set i { t with pc := 4, reg := s.flying - 1 } }
-    else if t.pc = 4 then
-      some { s with avg := s.avg * flyingBeta + (t.reg : Rat) * (1 - flyingBeta), ths := s.ths.set i { t with pc := 5 } }
-    else none
+structure Cfg where
+  thr   : Int      -- cpuThreshold
+  scale : Rat      -- windowScale
+  deriving Repr
 
-def init (n : Nat) : Sys := { flying := 0, avg := 0, ths := List.replicate n { pc := 0 } }
+structure Th where
+  pc    : PC
+  -- registers
+  over  : Bool
+  rnow  : Nat
+  rdr   : Bool
+  rot   : Nat
+  ravg  : Rat
+  rmp   : Int
+  rrt   : Rat
+  rcpu  : Int
+  rf    : Int
+  start : Nat
+  rt    : Int
+  reg   : Int
+  -- ghosts
+  gDr   : Snap
+  gOt   : Snap
+  gNow  : Snap
+  gAvg  : Snap
+  gMp   : Snap
+  gRt   : Snap
+  gFly  : Snap
+  gLast : Nat      -- step number of this goroutine's latest step
+  deriving Repr
 
-inductive Reach (n : Nat) : Sys → Prop where
-  | init : Reach n (init n)
-  | step (s s' : Sys) (i : Nat) (lim : Rat) (drop : Bool) : Reach n s → step s i lim drop = some s' → Reach n s'
+/-- the capacity estimate from a peak pass count and a minimum latency: `maxFlight()`. -/
+def capOf (cfg : Cfg) (mp : Int) (rt : Rat) : Rat :=
+  let m : Rat := (mp : Rat) * rt * cfg.scale
+  if m < 1 then 1 else m
 
-structure Inv (s : Sys) : Prop where
-  conserve : s.flying = (inFlight s : Int)
-  dropped  : ∀ t ∈ s.ths, t.pc = 2 → 1 ≤ t.rf
-  readOk   : ∀ t ∈ s.ths, 0 ≤ t.rf
+/-- the limit `highThru` compares against: `maxFlight() * overloadFactor()`. -/
+def limC (cfg : Cfg) (mp : Int) (rt : Rat) (cpu : Int) : Rat := capOf cfg mp rt * overloadFactor cfg.thr cpu
 
-theorem init_inv (n : Nat) : Inv (init n) where
+/-- … from the goroutine's registers. -/
+def limOf (cfg : Cfg) (t : Th) : Rat := limC cfg t.rmp t.rrt t.rcpu
+
+/-- environment inputs of one step. -/
+structure Inp where
+  over  : Bool := false    -- systemOverloadChecker's verdict (used at `start`)
+  cpu   : Int := 0         -- stat.CpuUsage() (used at `htCpu`)
+  clear : Bool := false    -- the log line's stillHot() found the cool-off lapsed (used at `logHot`)
+  pass  : Bool := true     -- the caller resolves with Pass rather than Fail (used at `inflight`)
+  deriving Repr
+
+/-- one step of a goroutine against the shared state `sh`; `g` is the ghost snapshot of this instant. -/
+def thStep (cfg : Cfg) (sh : Shared) (g : Snap) (t : Th) (inp : Inp) : Option (Shared × Th) :=
+  match t.pc with
+  | .start => some (sh, { t with over := inp.over, pc := if inp.over then .soNow else .shDr })
+  | .soNow => some (sh, { t with rnow := sh.now, pc := .soSet })
+  | .soSet => some ({ sh with overloadTime := t.rnow }, { t with pc := .htAvg })
+  | .shDr => some (sh, { t with rdr := sh.dropped, gDr := g, pc := if sh.dropped then .shOt else .enter })
+  | .shOt => some (sh, { t with rot := sh.overloadTime, gOt := g, pc := if sh.overloadTime = 0 then .enter else .shNow })
+  | .shNow => some (sh, { t with rnow := sh.now, gNow := g, pc := if sh.now - t.rot < coolOffNs then .htAvg else .shClear })
+  | .shClear => some ({ sh with dropped := false }, { t with pc := .enter })
+  | .htAvg => some (sh, { t with ravg := sh.avg, gAvg := g, pc := .htMp })
+  | .htMp => some (sh, { t with rmp := maxPassOf (sh.passC.visible sh.now), gMp := g, pc := .htRt })
+  | .htRt => some (sh, { t with rrt := minRtOf (sh.rtC.visible sh.now), gRt := g, pc := .htCpu })
+  | .htCpu => some (sh, { t with rcpu := inp.cpu, pc := if t.ravg > limC cfg t.rmp t.rrt inp.cpu then .htFly else .enter })
+  | .htFly => some (sh, { t with rf := sh.flying, gFly := g, pc := if (sh.flying : Rat) > limOf cfg t then .logHot else .enter })
+  | .logHot => some (if inp.clear then { sh with dropped := false } else sh, { t with pc := .setDr })
+  | .setDr => some ({ sh with dropped := true }, { t with pc := .shed })
+  | .shed => none
+  | .enter => some ({ sh with flying := sh.flying + 1 }, { t with pc := .stamp })
+  | .stamp => some (sh, { t with start := sh.now, pc := .inflight })
+  | .inflight =>
+    if inp.pass then some (sh, { t with rt := rtMs sh.now t.start, pc := .pAdd })
+    else some ({ sh with flying := sh.flying - 1 }, { t with reg := sh.flying - 1, pc := .fAvg })
+  | .pAdd => some ({ sh with flying := sh.flying - 1 }, { t with reg := sh.flying - 1, pc := .pAvg })
+  | .pAvg => some ({ sh with avg := sh.avg * flyingBeta + (t.reg : Rat) * (1 - flyingBeta) }, { t with pc := .pRt })
+  | .pRt => some ({ sh with rtC := sh.rtC.add sh.now t.rt }, { t with pc := .pCnt })
+  | .pCnt => some ({ sh with passC := sh.passC.add sh.now 1 }, { t with pc := .done })
+  | .fAvg => some ({ sh with avg := sh.avg * flyingBeta + (t.reg : Rat) * (1 - flyingBeta) }, { t with pc := .done })
+  | .done => none
+
+structure Sys where
+  sh    : Shared
+  ths   : List Th
+  steps : Nat          -- ghost: number of steps taken so far
+  deriving Repr
+
+def inFlight (s : Sys) : Nat := s.ths.countP (fun t => t.pc.inFlight)
+
+/-- the ghost snapshot of a state. -/
+def Sys.snap (s : Sys) : Snap := ⟨s.sh, inFlight s, s.steps⟩
+
+inductive Act where
+  | tick (d : Nat)               -- the clock advances
+  | run (i : Nat) (inp : Inp)    -- goroutine `i` takes its next step
+
+def step (cfg : Cfg) (s : Sys) : Act → Option Sys
+  | .tick d => some { s with sh := { s.sh with now := s.sh.now + d }, steps := s.steps + 1 }
+  | .run i inp =>
+    match s.ths[i]? with
+    | none => none
+    | some t =>
+      match thStep cfg s.sh s.snap t inp with
+      | none => none
+      | some r => some { sh := r.1, ths := s.ths.set i { r.2 with gLast := s.steps }, steps := s.steps + 1 }
+
+def Snap.zero (sh : Shared) : Snap := ⟨sh, 0, 0⟩
+
+def Th.fresh (sh : Shared) : Th :=
+  { pc := .start, over := false, rnow := 0, rdr := false, rot := 0, ravg := 0, rmp := 0, rrt := 0, rcpu := 0, rf := 0,
+    start := 0, rt := 0, reg := 0, gDr := .zero sh, gOt := .zero sh, gNow := .zero sh, gAvg := .zero sh,
+    gMp := .zero sh, gRt := .zero sh, gFly := .zero sh, gLast := 0 }
+
+/-- `n` goroutines about to call Allow on a shedder whose shared memory is `sh0` with nothing in flight. -/
+def init (sh0 : Shared) (n : Nat) : Sys :=
+  { sh := { sh0 with flying := 0 }, ths := List.replicate n (Th.fresh sh0), steps := 0 }
+
+inductive Reach (cfg : Cfg) (sh0 : Shared) (n : Nat) : Sys → Prop where
+  | init : Reach cfg sh0 n (init sh0 n)
+  | step (s s' : Sys) (a : Act) : Reach cfg sh0 n s → step cfg s a = some s' → Reach cfg sh0 n s'
+
+/-- the ghost `g` is the snapshot of a reachable state. -/
+def SnapOk (cfg : Cfg) (sh0 : Shared) (n : Nat) (g : Snap) : Prop := ∃ s, Reach cfg sh0 n s ∧ s.snap = g
+
+section
+variable (cfg : Cfg) (sh0 : Shared) (n : Nat)
+
+/-! the facts a goroutine has collected, as predicates over the registers / ghosts involved; `last` is the step
+number of the goroutine's latest step (every ghost was taken at or before it) -/
+
+/-- `droppedRecently` was true at the instant `gDr`. -/
+def DrP (gDr : Snap) (last : Nat) : Prop :=
+  SnapOk cfg sh0 n gDr ∧ gDr.sh.dropped = true ∧ gDr.seq ≤ last
+
+/-- `overloadTime` was `rot ≠ 0` at the instant `gOt`, after `gDr`. -/
+def OtP (gDr gOt : Snap) (rot last : Nat) : Prop :=
+  SnapOk cfg sh0 n gOt ∧ rot = gOt.sh.overloadTime ∧ rot ≠ 0 ∧ gDr.seq ≤ gOt.seq ∧ gOt.seq ≤ last
+
+/-- the gate `systemOverloaded() || stillHot()` was open: the checker said so, or droppedRecently was set at `gDr`,
+overloadTime was non-zero at `gOt` and less than a second before the clock reading at `gNow`. -/
+def GateP (over : Bool) (gDr gOt gNow : Snap) (last : Nat) : Prop :=
+  over = true ∨
+    (SnapOk cfg sh0 n gDr ∧ gDr.sh.dropped = true ∧ SnapOk cfg sh0 n gOt ∧ gOt.sh.overloadTime ≠ 0
+      ∧ SnapOk cfg sh0 n gNow ∧ gNow.sh.now - gOt.sh.overloadTime < coolOffNs
+      ∧ gDr.seq ≤ gOt.seq ∧ gOt.seq ≤ gNow.seq ∧ gNow.seq ≤ last)
+
+/-- `ravg` is the shared average at the instant `gAvg` (after the gate's reads). -/
+def AvgP (over : Bool) (gNow gAvg : Snap) (ravg : Rat) (last : Nat) : Prop :=
+  SnapOk cfg sh0 n gAvg ∧ ravg = gAvg.sh.avg ∧ gAvg.seq ≤ last ∧ (over = false → gNow.seq ≤ gAvg.seq)
+
+/-- `rmp` is the peak pass count of the window as it stood at the instant `gMp`. -/
+def MpP (gAvg gMp : Snap) (rmp : Int) (last : Nat) : Prop :=
+  SnapOk cfg sh0 n gMp ∧ rmp = maxPassOf (gMp.sh.passC.visible gMp.sh.now) ∧ gAvg.seq ≤ gMp.seq ∧ gMp.seq ≤ last
+
+/-- `rrt` is the minimum latency of the window as it stood at the instant `gRt`. -/
+def RtP (gMp gRt : Snap) (rrt : Rat) (last : Nat) : Prop :=
+  SnapOk cfg sh0 n gRt ∧ rrt = minRtOf (gRt.sh.rtC.visible gRt.sh.now) ∧ gMp.seq ≤ gRt.seq ∧ gRt.seq ≤ last
+
+/-- `rf` is the shared counter at the instant `gFly`, and exceeded the limit. -/
+def FlyP (gRt gFly : Snap) (rf : Int) (lim : Rat) (last : Nat) : Prop :=
+  SnapOk cfg sh0 n gFly ∧ rf = gFly.sh.flying ∧ (rf : Rat) > lim ∧ gRt.seq ≤ gFly.seq ∧ gFly.seq ≤ last
+
+/-- what a goroutine's registers and ghosts satisfy, by program position. -/
+structure Local (t : Th) : Prop where
+  ov   : t.pc = .soNow ∨ t.pc = .soSet → t.over = true
+  dr   : t.pc = .shOt ∨ t.pc = .shNow → DrP cfg sh0 n t.gDr t.gLast
+  ot   : t.pc = .shNow → OtP cfg sh0 n t.gDr t.gOt t.rot t.gLast
+  gate : 1 ≤ t.pc.stage → GateP cfg sh0 n t.over t.gDr t.gOt t.gNow t.gLast
+  avg  : 2 ≤ t.pc.stage → AvgP cfg sh0 n t.over t.gNow t.gAvg t.ravg t.gLast
+  mp   : 3 ≤ t.pc.stage → MpP cfg sh0 n t.gAvg t.gMp t.rmp t.gLast
+  rt   : 4 ≤ t.pc.stage → RtP cfg sh0 n t.gMp t.gRt t.rrt t.gLast
+  cmp  : 5 ≤ t.pc.stage → t.ravg > limOf cfg t
+  fly  : 6 ≤ t.pc.stage → FlyP cfg sh0 n t.gRt t.gFly t.rf (limOf cfg t) t.gLast
+
+structure Inv (cfg : Cfg) (sh0 : Shared) (n : Nat) (s : Sys) : Prop where
+  conserve : s.sh.flying = (inFlight s : Int)
+  loc      : ∀ t ∈ s.ths, Local cfg sh0 n t
+  last     : ∀ t ∈ s.ths, t.gLast ≤ s.steps
+
+end
+
+/-! ### the invariant holds in every reachable state -/
+
+variable {cfg : Cfg} {sh0 : Shared} {n : Nat}
+
+theorem DrP.mono {g : Snap} {l l' : Nat} (h : DrP cfg sh0 n g l) (hl : l ≤ l') : DrP cfg sh0 n g l' :=
+  ⟨h.1, h.2.1, Nat.le_trans h.2.2 hl⟩
+theorem GateP.mono {o : Bool} {a b c : Snap} {l l' : Nat} (h : GateP cfg sh0 n o a b c l) (hl : l ≤ l') :
+    GateP cfg sh0 n o a b c l' := by
+  rcases h with h | h
+  · exact Or.inl h
+  · exact Or.inr ⟨h.1, h.2.1, h.2.2.1, h.2.2.2.1, h.2.2.2.2.1, h.2.2.2.2.2.1, h.2.2.2.2.2.2.1, h.2.2.2.2.2.2.2.1,
+      Nat.le_trans h.2.2.2.2.2.2.2.2 hl⟩
+theorem AvgP.mono {o : Bool} {a b : Snap} {r : Rat} {l l' : Nat} (h : AvgP cfg sh0 n o a b r l) (hl : l ≤ l') :
+    AvgP cfg sh0 n o a b r l' := ⟨h.1, h.2.1, Nat.le_trans h.2.2.1 hl, h.2.2.2⟩
+theorem MpP.mono {a b : Snap} {r : Int} {l l' : Nat} (h : MpP cfg sh0 n a b r l) (hl : l ≤ l') :
+    MpP cfg sh0 n a b r l' := ⟨h.1, h.2.1, h.2.2.1, Nat.le_trans h.2.2.2 hl⟩
+theorem RtP.mono {a b : Snap} {r : Rat} {l l' : Nat} (h : RtP cfg sh0 n a b r l) (hl : l ≤ l') :
+    RtP cfg sh0 n a b r l' := ⟨h.1, h.2.1, h.2.2.1, Nat.le_trans h.2.2.2 hl⟩
+theorem FlyP.mono {a b : Snap} {r : Int} {m : Rat} {l l' : Nat} (h : FlyP cfg sh0 n a b r m l) (hl : l ≤ l') :
+    FlyP cfg sh0 n a b r m l' := ⟨h.1, h.2.1, h.2.2.1, h.2.2.2.1, Nat.le_trans h.2.2.2.2 hl⟩
+
+/-- outside `systemOverloaded`'s / `stillHot`'s later steps and `highThru` nothing is claimed. -/
+theorem Local.idle (t : Th) (h0 : t.pc.stage = 0) (h1 : t.pc ≠ .shOt) (h2 : t.pc ≠ .shNow) (h3 : t.pc ≠ .soNow)
+    (h4 : t.pc ≠ .soSet) : Local cfg sh0 n t := by
+  constructor <;> intro hp <;> first | omega | simp_all
+
+/-- one step of a goroutine keeps (and extends) what it knows. -/
+theorem thStep_local (sh sh' : Shared) (g : Snap) (t t' : Th) (inp : Inp)
+    (h : thStep cfg sh g t inp = some (sh', t')) (hl : Local cfg sh0 n t) (hg : SnapOk cfg sh0 n g) (hgs : g.sh = sh)
+    (hlast : t.gLast ≤ g.seq) : Local cfg sh0 n { t' with gLast := g.seq } := by
+  unfold thStep at h
+  cases hpc : t.pc <;> simp only [hpc, Option.some.injEq, Prod.mk.injEq, reduceCtorEq] at h
+  case start =>
+    obtain ⟨rfl, rfl⟩ := h
+    cases ho : inp.over
+    · exact Local.idle _ (by simp [PC.stage]) (by simp) (by simp) (by simp) (by simp)
+    · constructor <;> intro hp <;> simp [PC.stage] at hp ⊢
+  case soNow =>
+    obtain ⟨rfl, rfl⟩ := h
+    constructor <;> intro hp <;> simp [PC.stage] at hp ⊢
+    exact hl.ov (Or.inl hpc)
+  case soSet =>
+    obtain ⟨rfl, rfl⟩ := h
+    constructor <;> intro hp <;> simp [PC.stage] at hp ⊢
+    exact Or.inl (hl.ov (Or.inr hpc))
+  case shDr =>
+    obtain ⟨rfl, rfl⟩ := h
+    cases hd : sh.dropped
+    · exact Local.idle _ (by simp [PC.stage]) (by simp) (by simp) (by simp) (by simp)
+    · constructor <;> intro hp <;> simp [PC.stage] at hp ⊢
+      exact ⟨hg, by rw [hgs]; exact hd, Nat.le_refl _⟩
+  case shOt =>
+    obtain ⟨rfl, rfl⟩ := h
+    have hdr := hl.dr (Or.inl hpc)
+    by_cases h0 : sh.overloadTime = 0
+    · exact Local.idle _ (by simp [h0, PC.stage]) (by simp [h0]) (by simp [h0]) (by simp [h0]) (by simp [h0])
+    · constructor <;> intro hp <;> simp [h0, PC.stage] at hp ⊢
+      · exact hdr.mono hlast
+      · exact ⟨hg, by rw [hgs], h0, Nat.le_trans hdr.2.2 hlast, Nat.le_refl _⟩
+  case shNow =>
+    obtain ⟨rfl, rfl⟩ := h
+    have hdr := hl.dr (Or.inr hpc)
+    have hot := hl.ot hpc
+    by_cases hw : sh.now - t.rot < coolOffNs
+    · constructor <;> intro hp <;> simp [hw, PC.stage] at hp ⊢
+      refine Or.inr ⟨hdr.1, hdr.2.1, hot.1, ?_, hg, ?_, hot.2.2.2.1, Nat.le_trans hot.2.2.2.2 hlast, Nat.le_refl _⟩
+      · rw [← hot.2.1]; exact hot.2.2.1
+      · rw [← hot.2.1, hgs]; exact hw
+    · exact Local.idle _ (by simp [hw, PC.stage]) (by simp [hw]) (by simp [hw]) (by simp [hw]) (by simp [hw])
+  case shClear =>
+    obtain ⟨rfl, rfl⟩ := h
+    exact Local.idle _ (by simp [PC.stage]) (by simp) (by simp) (by simp) (by simp)
+  case htAvg =>
+    obtain ⟨rfl, rfl⟩ := h
+    have hgate := hl.gate (by simp [hpc, PC.stage])
+    constructor <;> intro hp <;> simp [PC.stage] at hp ⊢
+    · exact hgate.mono hlast
+    · refine ⟨hg, by rw [hgs], Nat.le_refl _, fun ho => ?_⟩
+      rcases hgate with h | h
+      · rw [ho] at h; cases h
+      · exact Nat.le_trans h.2.2.2.2.2.2.2.2 hlast
+  case htMp =>
+    obtain ⟨rfl, rfl⟩ := h
+    have hgate := hl.gate (by simp [hpc, PC.stage])
+    have havg := hl.avg (by simp [hpc, PC.stage])
+    constructor <;> intro hp <;> simp [PC.stage] at hp ⊢
+    · exact hgate.mono hlast
+    · exact havg.mono hlast
+    · exact ⟨hg, by rw [hgs], Nat.le_trans havg.2.2.1 hlast, Nat.le_refl _⟩
+  case htRt =>
+    obtain ⟨rfl, rfl⟩ := h
+    have hgate := hl.gate (by simp [hpc, PC.stage])
+    have havg := hl.avg (by simp [hpc, PC.stage])
+    have hmp := hl.mp (by simp [hpc, PC.stage])
+    constructor <;> intro hp <;> simp [PC.stage] at hp ⊢
+    · exact hgate.mono hlast
+    · exact havg.mono hlast
+    · exact hmp.mono hlast
+    · exact ⟨hg, by rw [hgs], Nat.le_trans hmp.2.2.2 hlast, Nat.le_refl _⟩
+  case htCpu =>
+    obtain ⟨rfl, rfl⟩ := h
+    have hgate := hl.gate (by simp [hpc, PC.stage])
+    have havg := hl.avg (by simp [hpc, PC.stage])
+    have hmp := hl.mp (by simp [hpc, PC.stage])
+    have hrt := hl.rt (by simp [hpc, PC.stage])
+    by_cases hc : t.ravg > limC cfg t.rmp t.rrt inp.cpu
+    · constructor <;> intro hp <;> simp [hc, PC.stage] at hp ⊢
+      · exact hgate.mono hlast
+      · exact havg.mono hlast
+      · exact hmp.mono hlast
+      · exact hrt.mono hlast
+      · exact hc
+    · exact Local.idle _ (by simp [hc, PC.stage]) (by simp [hc]) (by simp [hc]) (by simp [hc]) (by simp [hc])
+  case htFly =>
+    obtain ⟨rfl, rfl⟩ := h
+    have hgate := hl.gate (by simp [hpc, PC.stage])
+    have havg := hl.avg (by simp [hpc, PC.stage])
+    have hmp := hl.mp (by simp [hpc, PC.stage])
+    have hrt := hl.rt (by simp [hpc, PC.stage])
+    have hcmp := hl.cmp (by simp [hpc, PC.stage])
+    by_cases hc : (sh.flying : Rat) > limOf cfg t
+    · constructor <;> intro hp <;> simp [hc, PC.stage] at hp ⊢
+      · exact hgate.mono hlast
+      · exact havg.mono hlast
+      · exact hmp.mono hlast
+      · exact hrt.mono hlast
+      · exact hcmp
+      · exact ⟨hg, by rw [hgs], hc, Nat.le_trans hrt.2.2.2 hlast, Nat.le_refl _⟩
+    · exact Local.idle _ (by simp [hc, PC.stage]) (by simp [hc]) (by simp [hc]) (by simp [hc]) (by simp [hc])
+  case logHot =>
+    obtain ⟨rfl, rfl⟩ := h
+    have hgate := hl.gate (by simp [hpc, PC.stage])
+    have havg := hl.avg (by simp [hpc, PC.stage])
+    have hmp := hl.mp (by simp [hpc, PC.stage])
+    have hrt := hl.rt (by simp [hpc, PC.stage])
+    have hcmp := hl.cmp (by simp [hpc, PC.stage])
+    have hfly := hl.fly (by simp [hpc, PC.stage])
+    constructor <;> intro hp <;> simp [PC.stage] at hp ⊢
+    · exact hgate.mono hlast
+    · exact havg.mono hlast
+    · exact hmp.mono hlast
+    · exact hrt.mono hlast
+    · exact hcmp
+    · exact hfly.mono hlast
+  case setDr =>
+    obtain ⟨rfl, rfl⟩ := h
+    have hgate := hl.gate (by simp [hpc, PC.stage])
+    have havg := hl.avg (by simp [hpc, PC.stage])
+    have hmp := hl.mp (by simp [hpc, PC.stage])
+    have hrt := hl.rt (by simp [hpc, PC.stage])
+    have hcmp := hl.cmp (by simp [hpc, PC.stage])
+    have hfly := hl.fly (by simp [hpc, PC.stage])
+    constructor <;> intro hp <;> simp [PC.stage] at hp ⊢
+    · exact hgate.mono hlast
+    · exact havg.mono hlast
+    · exact hmp.mono hlast
+    · exact hrt.mono hlast
+    · exact hcmp
+    · exact hfly.mono hlast
+  case inflight =>
+    split at h <;> simp only [Option.some.injEq, Prod.mk.injEq] at h <;> obtain ⟨rfl, rfl⟩ := h <;>
+      exact Local.idle _ (by simp [PC.stage]) (by simp) (by simp) (by simp) (by simp)
+  all_goals
+    obtain ⟨rfl, rfl⟩ := h
+    exact Local.idle _ (by simp [PC.stage]) (by simp) (by simp) (by simp) (by simp)
+
+/-- the counter moves exactly when the goroutine enters or leaves the in-flight positions. -/
+theorem thStep_flying (sh sh' : Shared) (g : Snap) (t t' : Th) (inp : Inp)
+    (h : thStep cfg sh g t inp = some (sh', t')) :
+    sh'.flying + (if t.pc.inFlight then 1 else 0) = sh.flying + (if t'.pc.inFlight then 1 else 0) := by
+  unfold thStep at h
+  cases hpc : t.pc <;> simp only [hpc, Option.some.injEq, Prod.mk.injEq, reduceCtorEq] at h
+  case inflight =>
+    split at h <;> simp only [Option.some.injEq, Prod.mk.injEq] at h <;> obtain ⟨rfl, rfl⟩ := h <;>
+      simp [PC.inFlight]
+  all_goals
+    obtain ⟨rfl, rfl⟩ := h
+    (try simp only [apply_ite PC.inFlight, apply_ite Shared.flying])
+    first
+      | (simp [PC.inFlight]; done)
+      | (simp [PC.inFlight]; omega)
+
+theorem init_inv (sh0 : Shared) (n : Nat) : Inv cfg sh0 n (init sh0 n) where
   conserve := by
     simp only [init, inFlight]
     rw [List.countP_replicate]
-    simp
-  dropped := by
-    intro t ht h
-    simp only [init] at ht
-    have := List.eq_of_mem_replicate ht
-    subst this
-    cases h
-  readOk := by
+    simp [Th.fresh, PC.inFlight]
+  loc := by
     intro t ht
     simp only [init] at ht
     have := List.eq_of_mem_replicate ht
     subst this
-    decide
+    exact Local.idle _ (by simp [Th.fresh, PC.stage]) (by simp [Th.fresh]) (by simp [Th.fresh]) (by simp [Th.fresh])
+      (by simp [Th.fresh])
+  last := by
+    intro t ht
+    simp only [init] at ht
+    have := List.eq_of_mem_replicate ht
+    subst this
+    simp [Th.fresh]
 
-theorem step_inv (s s' : Sys) (i : Nat) (lim : Rat) (drop : Bool) (inv : Inv s)
-    (hs : step s i lim drop = some s') : Inv s' := by
-  unfold step at hs
-  split at hs
-  · cases hs
-  · rename_i t ht
-    have hi : i < s.ths.length := (List.getElem?_eq_some_iff.mp ht).1
-    have hti : s.ths[i] = t := (List.getElem?_eq_some_iff.mp ht).2
-    have htm : t ∈ s.ths := List.mem_of_getElem? ht
-    have hc := inv.conserve
-    have hfl0 : 0 ≤ s.flying := by rw [hc]; omega
-    unfold inFlight at hc
+theorem step_inv (s s' : Sys) (a : Act) (hr : Reach cfg sh0 n s) (inv : Inv cfg sh0 n s)
+    (hs : step cfg s a = some s') : Inv cfg sh0 n s' := by
+  cases a with
+  | tick d =>
+    simp only [step, Option.some.injEq] at hs
+    subst hs
+    exact ⟨inv.conserve, inv.loc, fun t ht => Nat.le_succ_of_le (inv.last t ht)⟩
+  | run i inp =>
+    simp only [step] at hs
     split at hs
-    · -- read flying
-      rename_i hpc
-      simp only [Option.some.injEq] at hs; subst hs
-      refine ⟨?_, ?_, ?_⟩
-      · simp only [inFlight, List.countP_set hi, hti, hpc]; simpa using hc
-      · intro u hu h2
-        rcases List.mem_or_eq_of_mem_set hu with h | h
-        · exact inv.dropped u h h2
-        · subst h; cases h2
-      · intro u hu
-        rcases List.mem_or_eq_of_mem_set hu with h | h
-        · exact inv.readOk u h
-        · subst h; exact hfl0
-    · split at hs
-      · rename_i hpc0 hpc
-        split at hs
-        · split at hs
-          · -- drop: the value read exceeded a limit ≥ 1/10, hence ≥ 1
-            rename_i hd hlim
-            simp only [Option.some.injEq] at hs; subst hs
-            refine ⟨?_, ?_, ?_⟩
-            · simp only [inFlight, List.countP_set hi, hti, hpc]; simpa using hc
-            · intro u hu h2
-              rcases List.mem_or_eq_of_mem_set hu with h | h
-              · exact inv.dropped u h h2
-              · subst h
-                have : (0 : Rat) < (t.rf : Rat) := by grind
-                have := Rat.intCast_pos.mp this
-                simp only []; omega
-            · intro u hu
-              rcases List.mem_or_eq_of_mem_set hu with h | h
-              · exact inv.readOk u h
-              · subst h; exact inv.readOk t htm
-          · cases hs
-        · -- admit: flying + 1, one more goroutine at pc 3
-          simp only [Option.some.injEq] at hs; subst hs
-          refine ⟨?_, ?_, ?_⟩
-          · simp only [inFlight, List.countP_set hi, hti, hpc]
-            simp only [beq_iff_eq, Nat.reduceEqDiff, if_false, if_true, Nat.sub_zero] at hc ⊢
-            omega
-          · intro u hu h2
-            rcases List.mem_or_eq_of_mem_set hu with h | h
-            · exact inv.dropped u h h2
-            · subst h; cases h2
-          · intro u hu
-            rcases List.mem_or_eq_of_mem_set hu with h | h
-            · exact inv.readOk u h
-            · subst h; exact inv.readOk t htm
-      · split at hs
-        · -- resolve: flying − 1, one goroutine leaves pc 3
-          rename_i hpc0 hpc1 hpc
-          simp only [Option.some.injEq] at hs; subst hs
-          have hpos : 0 < s.ths.countP (fun t => t.pc == 3) :=
-            List.countP_pos_iff.mpr ⟨t, htm, by simp [hpc]⟩
-          refine ⟨?_, ?_, ?_⟩
-          · simp only [inFlight, List.countP_set hi, hti, hpc]
-            simp only [beq_self_eq_true, if_true, beq_iff_eq, Nat.reduceEqDiff, if_false, Nat.add_zero] at hc ⊢
-            omega
-          · intro u hu h2
-            rcases List.mem_or_eq_of_mem_set hu with h | h
-            · exact inv.dropped u h h2
-            · subst h; cases h2
-          · intro u hu
-            rcases List.mem_or_eq_of_mem_set hu with h | h
-            · exact inv.readOk u h
-            · subst h; exact inv.readOk t htm
-        · split at hs
-          · -- average update: flying untouched
-            rename_i hpc0 hpc1 hpc3 hpc
-            simp only [Option.some.injEq] at hs; subst hs
-            refine ⟨?_, ?_, ?_⟩
-            · simp only [inFlight, List.countP_set hi, hti, hpc]; simpa using hc
-            · intro u hu h2
-              rcases List.mem_or_eq_of_mem_set hu with h | h
-              · exact inv.dropped u h h2
-              · subst h; cases h2
-            · intro u hu
-              rcases List.mem_or_eq_of_mem_set hu with h | h
-              · exact inv.readOk u h
-              · subst h; exact inv.readOk t htm
-          · cases hs
+    · cases hs
+    · rename_i t ht
+      have hi : i < s.ths.length := (List.getElem?_eq_some_iff.mp ht).1
+      have hti : s.ths[i] = t := (List.getElem?_eq_some_iff.mp ht).2
+      have htm : t ∈ s.ths := List.mem_of_getElem? ht
+      split at hs
+      · cases hs
+      · rename_i r hstep
+        simp only [Option.some.injEq] at hs
+        subst hs
+        have hfl := thStep_flying s.sh r.1 s.snap t r.2 inp hstep
+        have hloc := thStep_local s.sh r.1 s.snap t r.2 inp hstep (inv.loc t htm) ⟨s, hr, rfl⟩ rfl (inv.last t htm)
+        refine ⟨?_, ?_, ?_⟩
+        · have hc := inv.conserve
+          simp only [inFlight] at hc ⊢
+          rw [List.countP_set hi, hti]
+          have hpos : t.pc.inFlight = true → 0 < s.ths.countP (fun t => t.pc.inFlight) := fun hp =>
+            List.countP_pos_iff.mpr ⟨t, htm, hp⟩
+          cases h1 : t.pc.inFlight <;> cases h2 : r.2.pc.inFlight <;> simp [h1, h2] at hfl ⊢ <;>
+            (try have hp := hpos h1) <;> omega
+        · intro u hu
+          rcases List.mem_or_eq_of_mem_set hu with h | h
+          · exact inv.loc u h
+          · subst h; exact hloc
+        · intro u hu
+          rcases List.mem_or_eq_of_mem_set hu with h | h
+          · exact Nat.le_succ_of_le (inv.last u h)
+          · subst h; exact Nat.le_succ _
 
-theorem reach_inv (n : Nat) (s : Sys) (h : Reach n s) : Inv s := by
+theorem reach_inv (s : Sys) (h : Reach cfg sh0 n s) : Inv cfg sh0 n s := by
   induction h with
-  | init => exact init_inv n
-  | step s s' i lim drop _ hs ih => exact step_inv s s' i lim drop ih hs
+  | init => exact init_inv sh0 n
+  | step s s' a hr hs ih => exact step_inv s s' a hr ih hs
+
+/-! ### bounds of the limit; schedules -/
+
+theorem capOf_ge_one (cfg : Cfg) (mp : Int) (rt : Rat) : 1 ≤ capOf cfg mp rt := by
+  unfold capOf
+  simp only []
+  split
+  · exact Rat.le_refl
+  · grind
+
+/-- the limit lies between 10 % and 100 % of the capacity estimate it was computed from. -/
+theorem limC_bounds (cfg : Cfg) (mp : Int) (rt : Rat) (cpu : Int) :
+    capOf cfg mp rt ≤ 10 * limC cfg mp rt cpu ∧ limC cfg mp rt cpu ≤ capOf cfg mp rt := by
+  have hm := capOf_ge_one cfg mp rt
+  have hf := factor_bounds cfg.thr cpu
+  unfold limC
+  generalize capOf cfg mp rt = m at *
+  generalize overloadFactor cfg.thr cpu = f at *
+  have hm0 : (0 : Rat) ≤ m := by grind
+  have h1 : m * (1 / 10) ≤ m * f := Rat.mul_le_mul_of_nonneg_left hf.1 hm0
+  have h2 : m * f ≤ m * 1 := Rat.mul_le_mul_of_nonneg_left hf.2 hm0
+  constructor <;> grind
+
+/-- a schedule: actions taken one after the other. -/
+def runActs (cfg : Cfg) (s : Sys) : List Act → Option Sys
+  | [] => some s
+  | a :: as => (step cfg s a).bind (runActs cfg · as)
+
+theorem reach_runActs (cfg : Cfg) (sh0 : Shared) (n : Nat) (as : List Act) (s s' : Sys)
+    (h : Reach cfg sh0 n s) (hr : runActs cfg s as = some s') : Reach cfg sh0 n s' := by
+  induction as generalizing s with
+  | nil => simp only [runActs, Option.some.injEq] at hr; subst hr; exact h
+  | cons a as ih =>
+    simp only [runActs] at hr
+    cases hs : step cfg s a with
+    | none => rw [hs] at hr; cases hr
+    | some s1 => rw [hs] at hr; exact ih s1 (Reach.step s s1 a h hs) hr
+
+/-! ### a goroutine running alone -/
+
+/-- the shared memory of a sequential-model shedder at clock reading `now`. -/
+def ofShedder (s : Shedder) (now : Nat) : Shared :=
+  { now := now, flying := s.flying, avg := s.avgFlying, overloadTime := s.overloadTime, dropped := s.droppedRecently,
+    passC := s.passCounter, rtC := s.rtCounter }
+
+def cfgOf (s : Shedder) : Cfg := ⟨s.cpuThreshold, s.windowScale⟩
+
+/-- one goroutine runs alone (no other goroutine, no clock tick) until its Allow has returned. -/
+def solo (cfg : Cfg) (inp : Inp) : Nat → Shared × Th → Shared × Th
+  | 0, r => r
+  | fuel + 1, r =>
+    if r.2.pc = .shed ∨ r.2.pc = .stamp then r
+    else match thStep cfg r.1 ⟨r.1, 0, 0⟩ r.2 inp with
+      | none => r
+      | some r' => solo cfg inp fuel r'
+
+/-- … until its Pass / Fail has returned. -/
+def soloResolve (cfg : Cfg) (inp : Inp) : Nat → Shared × Th → Shared × Th
+  | 0, r => r
+  | fuel + 1, r =>
+    if r.2.pc = .done then r
+    else match thStep cfg r.1 ⟨r.1, 0, 0⟩ r.2 inp with
+      | none => r
+      | some r' => soloResolve cfg inp fuel r'
 
 end GoZero.C02.Conc
